@@ -51,3 +51,12 @@ Proof. vm_compute. reflexivity. Qed.
 Example wf_rejects_nullable_repetition :
   wf_grammar (mkgrammar (fun _ : unit => mkdef MNormal false (Rep (Opt (Str "x")))) None None) [tt] (fun _ => 0%N) = false.
 Proof. vm_compute. reflexivity. Qed.
+
+(* An observation about pest's stack.rs as transcribed (not reachable from the blots grammar, whose only PUSH / POP
+   pair sits inside one rule): after  snapshot; snapshot; pop; clear_snapshot  the element popped under the inner
+   checkpoint is forgotten, so the outer `restore` does not bring it back. *)
+Example pest_stack_nested_snapshot_loses_pop :
+  let k0 := stack_push "x" stack_new in
+  let k3 := snd (stack_pop (stack_snapshot (stack_snapshot k0))) in
+  cache (stack_restore (stack_clear_snapshot k3)) = [] /\ cache k0 = ["x"].
+Proof. vm_compute. split; reflexivity. Qed.
